@@ -24,6 +24,8 @@ type C13Case struct {
 	// Huge: Kind "huge" packs and unpacks one sequence of this many bases (a whole large
 	// chromosome; thorough tier only), made inside the check
 	Huge int `json:"huge,omitempty"`
+	// FirstCall: the named function is run as the first call into the package in a fresh process
+	FirstCall string `json:"first_call,omitempty"`
 }
 
 const dnaLetters = "aAcCgGtT"
@@ -107,6 +109,11 @@ func windowIntact(w []byte) error {
 }
 
 func checkC13(c C13Case, o *Obs) (err error) {
+	if c.FirstCall != "" {
+		o.NT = true
+		o.Class("first call in a fresh process")
+		return runFirstCall(c.FirstCall)
+	}
 	data := window(c.Data, (len(c.Data)+len(c.Dst)+c.Spare)%2 == 0)
 	defer func() {
 		if err == nil {
@@ -264,6 +271,21 @@ func checkC13(c C13Case, o *Obs) (err error) {
 }
 
 func exhaustiveC13(thorough bool, emit func(C13Case) bool) {
+	if !emit(C13Case{FirstCall: "DNATo2Bit"}) {
+		return
+	}
+	if !emit(C13Case{FirstCall: "DNAFrom2Bit"}) {
+		return
+	}
+	if !emit(C13Case{FirstCall: "Ntoi"}) {
+		return
+	}
+	if !emit(C13Case{FirstCall: "Iton"}) {
+		return
+	}
+	if !emit(C13Case{FirstCall: "DNATo2Bit-panics"}) {
+		return
+	}
 	// Ntoi and Iton first, before anything else in this process has used the package (tables
 	// built on first use must be built for them too).
 	{
@@ -405,6 +427,7 @@ func exhaustiveC13(thorough bool, emit func(C13Case) bool) {
 
 func keyC13(c C13Case) []byte {
 	k := append([]byte(c.Kind), byte(len(c.Dst)), byte(c.Spare), byte(c.Huge>>24), byte(c.Huge))
+	k = append(k, c.FirstCall...)
 	k = append(k, c.Dst...)
 	k = append(k, 0)
 	return append(k, c.Data...)
